@@ -23,7 +23,7 @@ LayerA ==
     ELSE IF ~BagEq(Rec.sarif, Rec.json) THEN "SarifDiffers"
     ELSE "ok"
 
-TraceInit == /\ tid = 1 /\ phase = "parse" /\ fault = "none" /\ input = "zero" /\ fmt = "text"
+TraceInit == /\ tid = 1 /\ phase = "parse" /\ fault = "none" /\ input = "zero" /\ fmt = "text" /\ verbose = FALSE
              /\ nviol = 0 /\ rendered = FALSE /\ exit = -1
 TraceNext == /\ tid <= Len(Traces)
              /\ PrintT(<<"VERDICT", tid, LayerA, "ok", 0>>)
